@@ -2,7 +2,7 @@
 
 use crate::engine::{CaseResult, Fail, Prop, Report, Tier};
 use crate::gen::{bits_spec, classify_bits, max_bits, BitsSpec};
-use crate::model::{check_bitvec, Bits, Plan, SetModel};
+use crate::model::{check_bitvec, Bits, Model, Plan, SetModel};
 use crate::util::frac;
 use crate::{ensure, ensure_eq};
 use proptest::prelude::*;
